@@ -83,6 +83,14 @@ Theorem svd_dense_k_repaired :
   exists o, svd_dense_k qi_leb 2 eye (vecl [qz 1; qz 2]) eye 1 LM = Some o /\ sk o = 1%nat /\ qi_eqb (sS o 0%nat) (qz 2) = true.
 Proof. eexists. split; [reflexivity|]. split; [reflexivity|vm_compute; reflexivity]. Qed.
 
+(* the jitter of the pinned CG rule is added to the inverse: for A = [[1000]] with the exact inverse of A^H A and eps = 1/1000
+   the result is 1/1000 + 1, which fails the first Penrose equation A X A = A (the repaired rule, eps = 0, satisfies it) *)
+Theorem pinv_cg_jitter_refuted :
+  let A : fm (R:=qi) := fun _ _ => qz 1000 in let Minv : fm (R:=qi) := fun _ _ => qic 1 1000000 0 1 in
+  qi_eqb (mmul 1 (mmul 1 A (pinv_cg 1 1 A Minv (qic 1 1000 0 1))) A 0%nat 0%nat) (A 0%nat 0%nat) = false /\
+  qi_eqb (mmul 1 (mmul 1 A (pinv_cg 1 1 A Minv (qz 0))) A 0%nat 0%nat) (A 0%nat 0%nat) = true.
+Proof. cbn zeta. split; vm_compute; reflexivity. Qed.
+
 (* satisfiable hypotheses: a 2x2 permutation matrix and its inverse by argsort *)
 Example pinv_perm_example : feqb 3 3 (mmul 3 (fun i j => delta (nth i [2;0;1]%nat 0%nat) j) (pinv_perm (inv_perm 3 [2;0;1]%nat))) eye = true.
 Proof. vm_compute. reflexivity. Qed.
